@@ -64,6 +64,14 @@ func runC15(c *an.Ctx) {
 		all = append(all, w)
 	}
 	r1512(c, all)
+	// the listing is "held fixed while paging" only if a request that is REFUSED does not rewrite items: a refused
+	// dispense that stores an emptied stock record blanks the very field ListInventory searches and builds its tokens
+	// from (the record keeps its collection key), so pages skip items or the token chain restarts (shared with
+	// R20.12 / R14.8, vending model)
+	r148as(c, "R15.14", func(fn *ssa.Function) bool {
+		return fn.Package() != nil && strings.HasSuffix(fn.Package().Pkg.Path(), "/pkg/trait/vendingpb")
+	})
+	c.Min("R15.14", 3)
 	r061as(c, "R15.13") // a page read with a mask does not alter the stored items: their key fields are what the next token is built from (shared with R06.1)
 	c.Min("R15.13", 3)
 	c.Min("R15.12", 7)
